@@ -2,7 +2,8 @@
 // the tree (engine_util_blas.c, engine_util_solve.c, engine_util_sparse.c/.h incl. the static-inline ones, in
 // whatever variant -- scalar or AVX -- this translation unit and the linked library are compiled).
 // Additional ops `o_*` are answered only by this side: they feed the property oracle of checks/c23.py
-// (certificate checks on mju_eig3 / mju_boxQP / mju_QCQP*, band and sparse routines against dense ones).
+// (certificate checks on mju_eig3 / mju_boxQP / mju_QCQP*, band and sparse routines against dense ones, the
+// consumers of row supernodes).
 #include <stdio.h>
 #include <stdlib.h>
 #include <string.h>
@@ -205,19 +206,27 @@ int main(void) {
       if (p.nr == 0) goto badop;
       int ret = mju_compressSparse(m, p.nr, p.nc, p.rownnz, p.rowadr, p.colind, minval);
       outi(ret); outiv(p.rownnz, p.nr); outiv(p.rowadr, p.nr); outiv(p.colind, p.cap); outfv(m, p.cap);
-    } else if (!strcmp(op, "sptr")) {
+    } else if (!strcmp(op, "sptr") || !strcmp(op, "sptrs")) {
+      int with_super = !strcmp(op, "sptrs");   // sptrs: res_rowsuper != NULL (buffer pre-filled with 3)
       pat_t p = getpat(); if (bad) goto badop;
       int capT = geti(); double* m = getfv(p.cap); FINISH();
       int tot = 0; for (int r = 0; r < p.nr; r++) { tot += p.rownnz[r]; if (p.rowadr[r] < p.rowadr[0]) goto badop; }
       if (tot > capT) goto badop;
       double* res = calloc(capT + 1, 8); int* rnz = calloc(p.nc + 1, 4); int* radr = calloc(p.nc + 1, 4);
       int* rcol = calloc(capT + 1, 4);
+      int* rsup = NULL;
+      if (with_super) { rsup = calloc(p.nc + 1, 4); for (int c = 0; c < p.nc; c++) rsup[c] = 3; }
       // the routine addresses mat/colind relative to rowadr[0]; every row extent must stay inside the buffers
       for (int r = 0; r < p.nr; r++) if (p.rowadr[r] - p.rowadr[0] + p.rownnz[r] > p.cap) goto badop;
       for (int r = 0; r < p.nr; r++) for (int k = 0; k < p.rownnz[r]; k++)
         if (p.colind[p.rowadr[r] - p.rowadr[0] + k] >= p.nc) goto badop;
-      mju_transposeSparse(res, m, p.nr, p.nc, rnz, radr, rcol, NULL, p.rownnz, p.rowadr, p.colind);
+      mju_transposeSparse(res, m, p.nr, p.nc, rnz, radr, rcol, rsup, p.rownnz, p.rowadr, p.colind);
       outiv(rnz, p.nc); outiv(radr, p.nc); outiv(rcol, capT); outfv(res, capT);
+      if (with_super) outiv(rsup, p.nc);
+    } else if (!strcmp(op, "spsuper")) {
+      pat_t p = getpat(); FINISH();
+      int* sup = calloc(p.nr + 1, 4); for (int r = 0; r < p.nr; r++) sup[r] = 3;
+      mju_superSparse(p.nr, sup, p.rownnz, p.rowadr, p.colind); outiv(sup, p.nr);
     } else if (!strcmp(op, "spcount")) {
       int na = geti(), nb = geti(); int* a = getiv(na); int* b = getiv(nb); FINISH();
       outi(mju_combineSparseCount(na, nb, a, b));
@@ -267,8 +276,10 @@ int main(void) {
       double* L = calloc(nt * nt + 1, 8); mju_band2Dense(L, B, nt, nb, nd, 0);
       outg(mind); outgv(mv, nt); outgv(x, nt); outgv(L, nt * nt);
     } else if (!strcmp(op, "o_sqr")) {
-      // sparse M'*diag*M through transposeSparse + Symbolic + Numeric (as MakeHessian does) and through the legacy
-      // mju_sqrMatTDSparse on the uncompressed layout; outputs both as dense lower triangles + the dense reference
+      // sparse M'*diag*M through transposeSparse + Symbolic + Numeric (as MakeHessian does), through
+      // mju_sqrMatTDSparse and the row-based mju_sqrMatTDSparse_row on the uncompressed layout, each with the lower
+      // triangle only and with diagind != NULL (upper triangle filled in); every result as a dense matrix + the dense
+      // reference.  `super` = 1: the transposed supernodes computed by mju_transposeSparse are passed as rowsuperT.
       pat_t p = getpat(); if (bad) goto badop;
       double* m = getfv(p.cap); double* dg = getfv(p.nr); int super = geti(); FINISH();
       if (p.nr == 0 || p.nc == 0) goto badop;
@@ -300,6 +311,48 @@ int main(void) {
       double* Md = calloc(nr * nc + 1, 8); mju_sparse2dense(Md, m, nr, nc, p.rownnz, p.rowadr, p.colind);
       double* Rd = calloc(nc * nc + 1, 8); mju_sqrMatTD(Rd, Md, dg, nr, nc);
       outi(nH); outgv(Hd, nc * nc); outgv(Ld, nc * nc); outgv(Rd, nc * nc);
+      // upper triangle filled in (diagind != NULL): Symbolic/Numeric, then mju_sqrMatTDSparse
+      int* Unnz = calloc(nc + 1, 4); int* Uadr = calloc(nc + 1, 4); int* Udiag = calloc(nc + 1, 4);
+      int nU = mju_sqrMatTDSparseSymbolic(Unnz, Uadr, NULL, Udiag, nr, nc, p.rownnz, p.rowadr, p.colind,
+                                          Tnnz, Tadr, Tcol, Tsuper, d);
+      double* U = calloc(nU + 1, 8); int* Ucol = calloc(nU + 1, 4);
+      mju_sqrMatTDSparseSymbolic(Unnz, Uadr, Ucol, Udiag, nr, nc, p.rownnz, p.rowadr, p.colind,
+                                 Tnnz, Tadr, Tcol, Tsuper, d);
+      mju_sqrMatTDSparseNumeric(U, nc, Unnz, Uadr, Ucol, Udiag, m, p.rownnz, p.rowadr, p.colind,
+                                mT, Tnnz, Tadr, Tcol, Tsuper, dg, d);
+      double* Ud = calloc(nc * nc + 1, 8); mju_sparse2dense(Ud, U, nc, nc, Unnz, Uadr, Ucol);
+      int diag_ok = 1;
+      // (a column of M without entries has no diagonal entry in the symbolic pattern: diagind = rowadr - 1 there)
+      for (int c = 0; c < nc; c++)
+        if (Tnnz[c] && (Udiag[c] < Uadr[c] || Udiag[c] >= Uadr[c] + Unnz[c] || Ucol[Udiag[c]] != c)) diag_ok = 0;
+      int* Fnnz = calloc(nc + 1, 4); int* Fcol = calloc(nc * nc + 1, 4); int* Fdiag = calloc(nc + 1, 4);
+      double* Fm = calloc(nc * nc + 1, 8);
+      mju_sqrMatTDSparse(Fm, m, mT, dg, nr, nc, Fnnz, Ladr, Fcol, p.rownnz, p.rowadr, p.colind, rsuper,
+                         Tnnz, Tadr, Tcol, Tsuper, d, Fdiag);
+      double* Fd = calloc(nc * nc + 1, 8); mju_sparse2dense(Fd, Fm, nc, nc, Fnnz, Ladr, Fcol);
+      for (int c = 0; c < nc; c++)
+        if (Fdiag[c] < Ladr[c] || Fdiag[c] >= Ladr[c] + Fnnz[c] || Fcol[Fdiag[c]] != c) diag_ok &= 1, diag_ok |= 2;
+      // row-based variant, lower triangle
+      int* Wnnz = calloc(nc + 1, 4); int* Wcol = calloc(nc * nc + 1, 4); double* Wm = calloc(nc * nc + 1, 8);
+      mju_sqrMatTDSparse_row(Wm, m, mT, dg, nr, nc, Wnnz, Ladr, Wcol, p.rownnz, p.rowadr, p.colind, rsuper,
+                             Tnnz, Tadr, Tcol, Tsuper, d, NULL);
+      double* Wd = calloc(nc * nc + 1, 8); mju_sparse2dense(Wd, Wm, nc, nc, Wnnz, Ladr, Wcol);
+      outi(nU); outi(diag_ok); outgv(Ud, nc * nc); outgv(Fd, nc * nc); outgv(Wd, nc * nc);
+    } else if (!strcmp(op, "o_trmv")) {
+      // consumer of the transposed supernodes: M' v as mulMatVecSparse(transposeSparse(M) with res_rowsuper) (the AVX
+      // build batches the rows of a supernode and reads only the first row's colind; the scalar build ignores them),
+      // plus the supernode array itself
+      pat_t p = getpat(); if (bad) goto badop;
+      double* m = getfv(p.cap); double* v = getfv(p.nr); FINISH();
+      if (p.nr == 0 || p.nc == 0 || p.rowadr[0] != 0) goto badop;
+      int nr = p.nr, nc = p.nc;
+      int tot = 0; for (int r = 0; r < nr; r++) tot += p.rownnz[r];
+      double* mT = calloc(tot + 1, 8); int* Tnnz = calloc(nc + 1, 4); int* Tadr = calloc(nc + 1, 4);
+      int* Tcol = calloc(tot + 1, 4); int* Tsuper = calloc(nc + 1, 4);
+      mju_transposeSparse(mT, m, nr, nc, Tnnz, Tadr, Tcol, Tsuper, p.rownnz, p.rowadr, p.colind);
+      double* r = calloc(nc + 1, 8);
+      mju_mulMatVecSparse(r, mT, v, nc, Tnnz, Tadr, Tcol, Tsuper);
+      outiv(Tsuper, nc); outgv(r, nc);
     } else goto badop;
     putchar('\n');
     continue;
